@@ -25,11 +25,22 @@ logger = logging.getLogger('pyx12.error_997')
 logger.setLevel(logging.DEBUG)
 
 
+def _copied(val):
+    """
+    A value copied from the received interchange, without the characters
+    that are delimiters of this acknowledgement
+    """
+    val = val or ''
+    for term in '~*:':
+        val = val.replace(term, '')
+    return val
+
+
 def _fixed_width(val, width):
     """
     Pad or cut a value to the width of its ISA element
     """
-    return (val or '').ljust(width)[:width]
+    return _copied(val).ljust(width)[:width]
 
 
 class error_997_visitor(error_visitor.error_visitor):
@@ -98,13 +109,13 @@ class error_997_visitor(error_visitor.error_visitor):
         seg = errh.cur_gs_node.seg_data
         gs_seg = pyx12.segment.Segment('GS', '~', '*', ':')
         gs_seg.append('FA')
-        gs_seg.append(seg.get_value('GS03').rstrip())
-        gs_seg.append(seg.get_value('GS02').rstrip())
+        gs_seg.append(_copied(seg.get_value('GS03')).rstrip())
+        gs_seg.append(_copied(seg.get_value('GS02')).rstrip())
         gs_seg.append(time.strftime('%Y%m%d'))
         gs_seg.append(time.strftime('%H%M%S'))
         # our own group control number: reuse theirs, unless they sent none
-        gs_seg.append(seg.get_value('GS06') or self.isa_control_num)
-        gs_seg.append(seg.get_value('GS07'))
+        gs_seg.append(_copied(seg.get_value('GS06')) or self.isa_control_num)
+        gs_seg.append(_copied(seg.get_value('GS07')))
         gs_seg.append('004010')  # GS08 is the version/release code, not ISA12
         self._write(gs_seg)
         self.gs_seg = gs_seg
@@ -172,9 +183,9 @@ class error_997_visitor(error_visitor.error_visitor):
             #seg = ['TA1', err_isa.isa_trn_set_id, err_isa.orig_date, \
             #    err_isa.orig_time]
             ta1_seg = pyx12.segment.Segment('TA1', '~', '*', ':')
-            ta1_seg.append(err_isa.isa_trn_set_id)
-            ta1_seg.append(err_isa.orig_date)
-            ta1_seg.append(err_isa.orig_time)
+            ta1_seg.append(_copied(err_isa.isa_trn_set_id))
+            ta1_seg.append(_copied(err_isa.orig_date))
+            ta1_seg.append(_copied(err_isa.orig_time))
             err_codes = self.__get_isa_errors(err_isa)
             if err_codes:
                 err_cde = err_codes[0]
@@ -219,7 +230,7 @@ class error_997_visitor(error_visitor.error_visitor):
         #seg = ['AK1', err_gs.fic, err_gs.gs_control_num]
         #self._write(seg)
         self._write(pyx12.segment.Segment('AK1*%s*%s' %
-                                          (err_gs.fic or '', err_gs.gs_control_num or ''), '~', '*', ':'))
+                                          (_copied(err_gs.fic), _copied(err_gs.gs_control_num)), '~', '*', ':'))
 
     def __get_gs_errors(self, err_gs):
         """
@@ -307,8 +318,8 @@ class error_997_visitor(error_visitor.error_visitor):
         @type err_st: L{error_handler.err_st}
         """
         seg_data = pyx12.segment.Segment('AK2', '~', '*', ':')
-        seg_data.append(err_st.trn_set_id)
-        seg_data.append((err_st.trn_set_control_num or '').strip())
+        seg_data.append(_copied(err_st.trn_set_id))
+        seg_data.append(_copied(err_st.trn_set_control_num).strip())
         self._write(seg_data)
 
     def __get_st_errors(self, err_st):
